@@ -10,5 +10,5 @@ func init() {
 }
 
 func genC16(g *Gen, tier string, w *bufio.Writer) {
-	genGbOps(g, tier, w, int(seed()))
+	genGbOps(g, tier, w, int(seed()), false)
 }
